@@ -59,6 +59,11 @@ type IsoScenario struct {
 	NoPool  bool        `json:"noPool,omitempty"` // reference mode: real pools, no scheduler hooks on pools
 	// Full: a short program explored in all its interleavings, whatever the preemption bound of the tier
 	Full bool `json:"full,omitempty"`
+	// CutGet: the backend connection that is asked to read a key with this prefix dies after CutAt
+	// bytes of that reply (inside the value of a hit). Keyed by key, not by connection, so that the
+	// connection meets the same fault when it runs alone (the reference).
+	CutGet string `json:"cutGet,omitempty"`
+	CutAt  int    `json:"cutAt,omitempty"`
 }
 
 type isoResult struct {
@@ -110,8 +115,18 @@ func runIso(sc IsoScenario, prefix []int, only int) *isoResult {
 		hk.PoolPoints = !sc.Full // (all interleavings of a short program: at lock and backend-request granularity)
 		vsync.H = poisonHooks{hk}
 		defer hk.Uninstall()
-		w.ConnHook = func(tier int, c *fakemc.Conn) {
-			c.Before = func(c *fakemc.Conn, f *fakemc.Frame) { s.Point(fmt.Sprintf("L%d:%s", tier, frameTag(f)), nil) }
+	}
+	cutIfAsked := func(c *fakemc.Conn, f *fakemc.Frame) {
+		if sc.CutGet != "" && strings.HasPrefix(string(f.Key), sc.CutGet) && strings.HasPrefix(frameTag(f), "g") {
+			c.FaultNext(fakemc.Fault{Kind: fakemc.FCloseAfterBytes, K: sc.CutAt})
+		}
+	}
+	w.ConnHook = func(tier int, c *fakemc.Conn) {
+		c.Before = func(c *fakemc.Conn, f *fakemc.Frame) {
+			if !sc.NoPool {
+				s.Point(fmt.Sprintf("L%d:%s", tier, frameTag(f)), nil)
+			}
+			cutIfAsked(c, f)
 		}
 	}
 	if sc.Cfg.Lock != "none" {
@@ -169,7 +184,7 @@ var (
 
 // isoReference: each connection alone, real pools, no scheduler points on pools.
 func isoReference(c *rt.Ctx, sc IsoScenario) []string {
-	key := fmt.Sprintf("%s|%v", sc.Cfg, sc.Threads)
+	key := fmt.Sprintf("%s|%v|%s|%d", sc.Cfg, sc.Threads, sc.CutGet, sc.CutAt)
 	isoRefMu.Lock()
 	defer isoRefMu.Unlock()
 	if r, ok := isoRef[key]; ok {
@@ -254,6 +269,18 @@ func runC14(c *rt.Ctx) {
 			scs = append(scs, IsoScenario{Cfg: cfg, Threads: [][]wire.Op{
 				{{Kind: "set", Key: "c0-k", Val: "v0", Flags: 1}, {Kind: "gete", Key: "c0-k"}, {Kind: "get", Key: "c0-k"}},
 				{{Kind: "set", Key: "c1-k", Val: "v1", Flags: 2}, {Kind: "get", Key: "c1-k"}, {Kind: "delete", Key: "c1-k"}}}})
+		}
+		if cfg.Proto == "binary" || cfg.Orca == "l1l2" {
+			// a fault on one connection: its backend connection dies inside the value of a get hit
+			// (after the reply header and extras, at three depths); the other connections, on
+			// keys of their own, must see what they see alone, and nothing pooled may be handed
+			// back twice on the failure path
+			for _, at := range []int{24, 28, 31} {
+				scs = append(scs, IsoScenario{Cfg: cfg, CutGet: "cut-", CutAt: at, Threads: [][]wire.Op{
+					{{Kind: "set", Key: "cut-k", Val: "AAAAAAAAAA", Flags: 1}, {Kind: "get", Key: "cut-k"}},
+					{{Kind: "set", Key: "c1-k", Val: "BBBBBBBBBB", Flags: 2}, {Kind: "get", Key: "c1-k"}, {Kind: "get", Key: "c1-k"}},
+					{{Kind: "set", Key: "c2-k", Val: "CCCCCCCCCC", Flags: 3}, {Kind: "get", Key: "c2-k"}}}})
+			}
 		}
 		if cfg.Lock != "none" {
 			// one command per connection, all interleavings: a multi-key get (which the locking wrapper
